@@ -3,11 +3,13 @@ package main
 import (
 	"bytes"
 	"fmt"
+	"io"
 	"io/ioutil"
 	"os"
 	"path/filepath"
 	"strconv"
 	"strings"
+	"testing/iotest"
 	"time"
 
 	"github.com/q191201771/lal/pkg/base"
@@ -22,6 +24,19 @@ func atoi(s string) int {
 	return int(v)
 }
 
+// c11Pieces serves at most n bytes per Read
+type c11Pieces struct {
+	r io.Reader
+	n int
+}
+
+func (p *c11Pieces) Read(b []byte) (int, error) {
+	if len(b) > p.n {
+		b = b[:p.n]
+	}
+	return p.r.Read(b)
+}
+
 func init() {
 	// flv.pack <type> <ts> <payload>  =>  raw tag bytes
 	ops["flv.pack"] = func(a []string) string {
@@ -29,12 +44,23 @@ func init() {
 	}
 	// flv.read <bytes>  =>  ok <type> <datasize> <ts> <rawlen> <restlen> | err
 	ops["flv.read"] = func(a []string) string {
-		rd := bytes.NewReader(unhx(a[0]))
-		tag, err := httpflv.ReadTag(rd)
-		if err != nil {
-			return "err"
+		one := func(wrap func(io.Reader) io.Reader) string {
+			rd := bytes.NewReader(unhx(a[0]))
+			tag, err := httpflv.ReadTag(wrap(rd))
+			if err != nil {
+				return "err"
+			}
+			return fmt.Sprintf("ok %d %d %d %d %d", tag.Header.Type, tag.Header.DataSize, tag.Header.Timestamp, len(tag.Raw), rd.Len())
 		}
-		return fmt.Sprintf("ok %d %d %d %d %d", tag.Header.Type, tag.Header.DataSize, tag.Header.Timestamp, len(tag.Raw), rd.Len())
+		// the same bytes arriving in one piece, byte by byte, and in pieces of 7 (a network reader): one answer
+		plain := one(func(r io.Reader) io.Reader { return r })
+		if b := one(iotest.OneByteReader); b != plain {
+			return "byte-by-byte:" + b + " / " + plain
+		}
+		if b := one(func(r io.Reader) io.Reader { return &c11Pieces{r: r, n: 7} }); b != plain {
+			return "pieces-of-7:" + b + " / " + plain
+		}
+		return plain
 	}
 	// flv.file <type>:<ts>:<payload>,...  =>  bytes of the file FlvFileWriter wrote ; tags FlvFileReader read back
 	ops["flv.file"] = func(a []string) string {
@@ -44,6 +70,12 @@ func init() {
 		}
 		defer os.RemoveAll(dir)
 		fn := filepath.Join(dir, "a.flv")
+		// an earlier, longer recording under the same name (a stream published again within the same second): the new
+		// recording replaces it, nothing of the old one may remain behind the new file's last tag
+		old := append(append([]byte("FLV\x01\x05\x00\x00\x00\x09\x00\x00\x00\x00"), httpflv.PackHttpflvTag(9, 7, bytes.Repeat([]byte{0xee}, 70000))...), 0xee, 0xee)
+		if err := ioutil.WriteFile(fn, old, 0o644); err != nil {
+			panic(err)
+		}
 		var w httpflv.FlvFileWriter
 		if err := w.Open(fn); err != nil {
 			panic(err)
